@@ -1036,11 +1036,12 @@ func c04FamTemplateLiterals(r *Run) *Family {
 // ---------------------------------------------------------------------------
 
 func runC04(r *Run) {
-	r.Rule = "reference model (regex maximal-munch tokenizer + grammar table recognised by a generic Earley recogniser + precedence-climbing tree builder) against actionlint.NewExprLexer/NewExprParser().Parse and against Linter.Lint with the text embedded as ${{ }} in run:/env: values and as if: condition. Workloads: every string over the 23-symbol token alphabet and every string over the 25-character lexical alphabet up to a length bound; every whitespace filling of every sentence of up to 5 tokens; operator chains; random grammar sentences (nesting depth <= 12) with token/character mutations; a list of number forms in 24 contexts; end-marker texts; sentences whose string literals look like template syntax (${{, ${, {{, }, }} ...) alone in the five embeddings and in template scalars (run:, env:, if:, name:) between 0-2 further placeholders on each side, with and without a broken later placeholder. Non-trivial = a distinct text the reference decides (a hash-selected 1/8 of the sentences and 1/64 of the non-sentences are recorded)."
+	r.Rule = "reference model (regex maximal-munch tokenizer + grammar table recognised by a generic Earley recogniser + precedence-climbing tree builder) against actionlint.NewExprLexer/NewExprParser().Parse and against Linter.Lint with the text embedded as ${{ }} in run:/env: values and as if: condition. Workloads: every string over the 23-symbol token alphabet and every string over the 25-character lexical alphabet up to a length bound; every whitespace filling of every sentence of up to 5 tokens; operator chains; random grammar sentences (nesting depth <= 12) with token/character mutations; a list of number forms in 24 contexts; end-marker texts; sentences whose string literals look like template syntax (${{, ${, {{, }, }} ...) alone in the five embeddings and in template scalars (run:, env:, if:, name:) between 0-2 further placeholders on each side, with and without a broken later placeholder; sequences of 5-50 valid / lexer-invalid / parser-invalid texts parsed by ONE ExprParser instance and compared position by position with a fresh parser (verdict, tree, message, offset). Non-trivial = a distinct text the reference decides (a hash-selected 1/8 of the sentences and 1/64 of the non-sentences are recorded)."
 	r.Assume("the documented language is: literals null/true/false/number/'string', identifiers [A-Za-z_][A-Za-z0-9_-]*, postfix .name .* [expr] on any primary, calls ident(args), !, comparisons (chains allowed), &&, ||, parentheses; whitespace is space, tab, CR, LF")
 	r.Assume("numbers: JSON number grammar or 0x followed by hex digits; compared as float64 values (int/float distinction is not part of the statement)")
 	r.Assume("statement silent, not compared: a number literal immediately followed by '.', hex literals with a redundant leading zero (0x01), signed hex literals (-0x1), float literals that overflow a double (1e309)")
 	r.Assume("placeholders of a template string are found left to right: one starts at \"${{\" and ends with the first \"}}\" token behind it (string literals are honoured, so \"}}\" and \"${{\" inside a literal are content); the search continues behind that end; actionlint reports only the first failing placeholder of a scalar. A bare if: condition that contains \"${{\" followed by \"}}\" is not compared (bare expression or template is not said)")
+	r.Assume("ExprParser is reusable by its API (NewExprParser() + any number of Parse(lexer) calls) and a call must not depend on earlier calls; ExprLexer has no exported way to be given a second source (only NewExprLexer(src)), so it has no reuse check")
 	r.Assume("only diagnostics of kind \"expression\" count; on a sentence only those whose message starts with one of the lexer/parser phrases are syntax diagnostics")
 	r.Assume("for a bare if: condition an error column up to two columns behind the text (the end marker actionlint appends) still counts as inside the placeholder; for quoted scalars the quote column counts as inside")
 
@@ -1049,6 +1050,7 @@ func runC04(r *Run) {
 	fams := []*Family{
 		c04FamEndMarker(r),
 		c04FamTemplateLiterals(r),
+		c04FamParserReuse(r, r.Q(3000, 100000)),
 		c04FamNumbers(r),
 		c04FamChains(r, r.Q(4, 5)),
 		c04FamTokens(r, r.Q(2, 3), tokLen, 4, r.Thorough()),
@@ -1106,6 +1108,12 @@ func runC04(r *Run) {
 		need(r.SetHas("mutation_ops_applied", op), "mutation operator "+op+" never applied")
 	}
 	need(r.Counter("ws_variants_still_sentences") > 1000, "fewer than 1000 whitespace variants that are sentences")
+	need(r.Counter("reuse_positions_compared") > 50000, "parser-reuse: fewer than 50000 positions compared")
+	need(r.Counter("reuse_valid_right_after_parser_error") > 2000, "parser-reuse: fewer than 2000 valid texts parsed right after a parser-level error")
+	need(r.Counter("reuse_valid_right_after_lexer_error") > 2000, "parser-reuse: fewer than 2000 valid texts parsed right after a lexer-level error")
+	need(r.Counter("reuse_invalid_right_after_parser-error") > 1000, "parser-reuse: fewer than 1000 invalid texts parsed right after a parser-level error")
+	need(r.Counter("reuse_invalid_right_after_lexer-error") > 1000, "parser-reuse: fewer than 1000 invalid texts parsed right after a lexer-level error")
+	need(r.Counter("reuse_positions_repeating_an_earlier_text") > 1000, "parser-reuse: fewer than 1000 positions that repeat an earlier text of the sequence")
 	need(r.Counter("chains_checked") > 1000, "fewer than 1000 operator chains compared")
 	need(r.Counter("random_sentences_confirmed_by_reference")*10 > r.Counter("random_sentences_not_a_sentence_after_rendering")*9+1, "the random sentence generator mostly produces non-sentences")
 }
